@@ -44,4 +44,9 @@ with cf.ThreadPoolExecutor(a.jobs) as ex:
         ex_codes = {c: v["exit"] for c, v in r["checks"].items()}
         sig = r["checks"].get(prop, {}).get("signatures", [])
         print(f"{name:42s} {prop} tests_pass={r.get('repo_tests_pass_with_patch')} demo_ok={r.get('demo_fails_with_patch')}/{r.get('demo_passes_without_patch')} caught_by={caught} exits={ex_codes if not caught else ''} {sig[:3]}", flush=True)
-json.dump(results, open(os.path.join(ROOT, "selftest", "last_run_" + ("seeded" if a.seeded else "mutants") + ".json"), "w"), indent=1)
+path = os.path.join(ROOT, "selftest", "last_run_" + ("seeded" if a.seeded else "mutants") + ".json")
+merged = {}
+if a.only and os.path.exists(path):
+    merged = json.load(open(path))
+merged.update(results)
+json.dump(merged, open(path, "w"), indent=1)
